@@ -1,8 +1,8 @@
 \* C10 exhaustive: the growing family of contexts (immutability, shadowing), shallow stack
-CONSTANTS NT = 1  NK = 2  NV = 1  NS = 1  MaxCtx = 3  MaxSet = 2  MaxDepth = 1  MaxMap = 2  MaxDrop = 3  WithEmpty = FALSE
+CONSTANTS NT = 1  NK = 2  NV = 1  NS = 1  MaxCtx = 3  MaxSet = 2  MaxDepth = 1  MaxMap = 2  MaxDrop = 3  MaxTok = 1  SampleToks = 0  WithEmpty = FALSE
           GenDepth = 0  DeepTarget = 99  Hist = FALSE  KeepFlags = FALSE  Dev = {}
 INIT Init
 NEXT Next
 VIEW View
 INVARIANTS TypeOK MostRecentBinding Shadowing StackFrames
-PROPERTIES Immutable AttachMakesCurrent DetachRestores ForeignTokenNoOp ScopeActivates ThreadsIsolated
+PROPERTIES Immutable AttachMakesCurrent DetachRestores ForeignTokenNoOp TokenLifetime ScopeActivates ThreadsIsolated
